@@ -5,6 +5,8 @@ steps: ["def", k, shift]   (re)define version k of the function (source rewritte
                             and is wrapped with Memory.cache immediately (decorator style)
        ["call", j, a]       call live version j with argument a
        ["swap", j, k]       live[j].__code__ = live[k].__code__  (live[j] now runs version k's code)
+       ["restore", j]       give live[j] its original code object back
+       ["forget", k]        drop every reference to live version k (function, wrapper, module) and gc.collect()
 Version k's body returns (k, a) and appends to builtins._vf_log.
 """
 
@@ -29,6 +31,12 @@ def source(kind, k, shift):
                       "        return (%d, a)\n    return f\n\n\nf = outer()\n" % (k, k))
     if kind == "lambda":
         return pre + "import builtins\n\nf = lambda a: (builtins._vf_log.append((%d, a)), (%d, a))[1]\n" % (k, k)
+    if kind == "swap":
+        # one same-named function f (version 1) plus donors g2, g3 whose code objects are swapped into f;
+        # every source stays available in the file
+        return ("import builtins\n\n\ndef f(a):\n    builtins._vf_log.append((1, a))\n    return (1, a)\n\n\n"
+                "def g2(a):\n    builtins._vf_log.append((2, a))\n    return (2, a)\n\n\n"
+                "def g3(a):\n    builtins._vf_log.append((3, a))\n    return (3, a)\n")
     if kind == "nofile":
         return pre + "import builtins\n\n\ndef f(a):\n    builtins._vf_log.append((%d, a))\n    return (%d, a)\n" % (k, k)
     raise ValueError(kind)
@@ -42,7 +50,7 @@ def run_session(kind, location, moddir, steps):
 
     builtins._vf_log = []
     mem = joblib.Memory(location, verbose=0)
-    live, cached, ver_of = {}, {}, {}
+    live, cached, ver_of, orig_code = {}, {}, {}, {}
     path = os.path.join(moddir, MODNAME + ".py")
     if moddir not in sys.path:
         sys.path.insert(0, moddir)
@@ -75,18 +83,47 @@ def run_session(kind, location, moddir, steps):
                     shutil.rmtree(os.path.join(moddir, "__pycache__"), ignore_errors=True)
                     mod = importlib.import_module(MODNAME)
                     func = mod.f
+            if kind == "swap":
+                donors = {2: mod.g2, 3: mod.g3}
             live[k] = func
+            orig_code[k] = (getattr(func, "__code__", None), k)
             ver_of[k] = k
             cached[k] = mem.cache(func)
+            del func
             out.append({"op": "def", "k": k})
         elif op == "swap":
             _, j, k = step
-            if j in live and k in live and kind != "nofile":
-                live[j].__code__ = live[k].__code__
-                ver_of[j] = ver_of[k]
+            if kind == "swap" and j in live and k in (2, 3):
+                live[j].__code__ = donors[k].__code__
+                ver_of[j] = k
                 out.append({"op": "swap", "j": j, "now": ver_of[j]})
             else:
                 out.append({"op": "swap", "skipped": True})
+        elif op == "restore":
+            j = step[1]
+            if j in live and kind == "swap" and orig_code[j][0] is not None:
+                live[j].__code__ = orig_code[j][0]
+                ver_of[j] = orig_code[j][1]
+                out.append({"op": "restore", "j": j, "now": ver_of[j]})
+            else:
+                out.append({"op": "restore", "skipped": True})
+        elif op == "forget":
+            k = step[1]
+            if k in live:
+                import gc
+                live.pop(k)
+                cached.pop(k)
+                orig_code.pop(k)
+                ver_of.pop(k)
+                mod = sys.modules.get(MODNAME)
+                if mod is not None and kind not in ("main", "nofile") and not any(getattr(f, "__module__", None) == MODNAME and f is getattr(mod, "f", None) for f in live.values()):
+                    sys.modules.pop(MODNAME, None)
+                del mod
+                ns = None
+                gc.collect()
+                out.append({"op": "forget", "k": k})
+            else:
+                out.append({"op": "forget", "skipped": True})
         elif op == "call":
             _, j, a = step
             if j not in live:
